@@ -9,7 +9,7 @@ import z3
 from engine import symex, symfile
 from engine.symex import CTX, PatchDoesNotApply, Loader
 from engine.symfile import BV64, SymBytes, SymFile, Disk, bv, W, side, crash_image
-from props.bundle import V2, inv_v2, le_bytes, U, IDX2, load_compact, run_sym, ModelFile, model_byte_fn, map_byte_fn
+from props.bundle import (V2, inv_v2, le_bytes, U, IDX2, load_compact, run_sym, ModelFile, model_byte_fn, map_byte_fn, V1, inv_v1, disjoint_v1)
 
 MOD = 'props.C06_crash'
 
@@ -186,6 +186,194 @@ def run_crash_v2(spec):
         vals['bytes'] = {str(k_): v for k_, v in sorted(f.reads.items())[:400]}
         out.update(cex=vals, replayed=ok, detail=(out['detail'] + ' | replay: ' + detail).strip(' |'))
     return out
+
+
+# --------------------------------------------------------------------------- (a') bundle v1 (index + data file)
+def goal_crash_v1(C, nbytes, part=None, kc=0):
+    from props.C19_bundle import _STile
+    st = V1(C, nbytes)
+    s = CTX.solver
+    off_o, size_o = st.entry(st.idx0, st.dat0, st.x, st.y)
+    off_b, size_b = st.entry(st.idx0, st.dat0, st.x2, st.y2)
+    same = st.same_slot()
+    s.add(inv_v1(st.dat0, st.Ld, off_o, size_o), inv_v1(st.dat0, st.Ld, off_b, size_b),
+          z3.Or(same, disjoint_v1(off_o, size_o, off_b, size_b)))
+    st.b.store_tiles([_STile((BV64(st.x), BV64(st.y), 0), SymBytes(st.d))])
+    log = list(st.disk.log)
+    st.log = log
+    tear = z3.BitVec('tear', W)
+    k = z3.BitVecVal(min(kc, len(log)), W)
+    st.k, st.tear = k, tear
+    idx_c = z3.simplify(crash_image(st.idx0, log, '/b/R0000C0000.bundlx', k, tear))
+    dat_c = z3.simplify(crash_image(st.dat0, log, '/b/R0000C0000.bundle', k, tear))
+    off_w, size_w = st.entry(idx_c, dat_c, st.x, st.y)
+    off_a, size_a = st.entry(idx_c, dat_c, st.x2, st.y2)
+    a = st.a
+    in_o = z3.And(off_o != 0, z3.UGE(a, off_o + 4), z3.ULT(a, off_o + 4 + size_o))
+    in_b = z3.And(off_b != 0, z3.UGE(a, off_b + 4), z3.ULT(a, off_b + 4 + size_b))
+    old_ok = z3.And(off_w == off_o, size_w == size_o, z3.Implies(in_o, z3.Select(dat_c, a) == z3.Select(st.dat0, a)))
+    new_ok = z3.And(off_w == st.Ld, size_w == nbytes, *[z3.Select(dat_c, st.Ld + 4 + i) == st.d[i] for i in range(nbytes)])
+    parts = {
+        'written-slot-old-or-new': z3.Or(old_ok, new_ok),
+        'other-slot-unaffected': z3.Implies(z3.Not(same), z3.And(off_a == off_b, size_a == size_b,
+                                                               z3.Implies(in_b, z3.Select(dat_c, a) == z3.Select(st.dat0, a)))),
+    }
+    return (parts[part] if part else z3.And(*parts.values())), st
+
+
+def run_crash_v1(spec):
+    a = spec['args']
+    nbytes = a.get('n', 5)
+    patches = _patches(spec)
+    try:
+        C = load_compact(True, patches)
+    except PatchDoesNotApply as e:
+        return dict(status='skipped', detail=str(e))
+    if spec['kind'] == 'witness':
+        res, st = run_sym(lambda: (z3.BoolVal(False), goal_crash_v1(C, nbytes, None, a.get('k', 1))[1]))
+    else:
+        res, st = run_sym(lambda: goal_crash_v1(C, nbytes, a.get('part'), a.get('k', 0)))
+    out = dict(status=res.status, stats=res.stats, detail=res.reason or (res.exc or ''), engine='E4',
+               functions=['BundleV1.store_tiles', 'BundleDataV1.append_tile', 'BundleIndexV1.update_tile_offset', 'BundleIndexV1.tile_offset'])
+    if st is not None:
+        out['stats']['flushes'] = len(getattr(st, 'log', []))
+        out['stats']['flush_order'] = [(n.rsplit('.', 1)[-1], len(bs)) for n, off, bs in getattr(st, 'log', [])]
+    if res.status == 'sat' and st is not None:
+        m = res.model
+        ev = lambda t: m.eval(t, model_completion=True).as_long()
+        out['cex'] = dict(Ld=ev(st.Ld), x=ev(st.x), y=ev(st.y), x2=ev(st.x2), y2=ev(st.y2), k=ev(st.k), tear=ev(st.tear), v1=True,
+                          flush_log=out['stats']['flush_order'])
+        if spec['kind'] != 'witness':
+            # replay: real writer with both files cut after k flushes (global order), then the real reader
+            ok, detail = native_crash_v1(out['cex'], [ev(d) for d in st.d], ev(st.a), model_byte_fn(m, st.idx0), model_byte_fn(m, st.dat0), patches)
+            out.update(replayed=ok, detail=(out['detail'] + ' | replay: ' + detail).strip(' |'))
+    return out
+
+
+def native_crash_v1(c, payload, a, idx_at, dat_at, patches):
+    import contextlib
+    from props.bundle import IDX1_END
+    from props.C19_bundle import _STile
+    C = load_compact(False, patches)
+    Ld, x, y, x2, y2, k, tear = (c[n] for n in ('Ld', 'x', 'y', 'x2', 'y2', 'k', 'tear'))
+    counter = {'n': 0}
+
+    class CrashFile(ModelFile):
+        def __init__(self, length, at):
+            ModelFile.__init__(self, length, at)
+            self.pending = None
+            self.vlen = length
+
+        def _flush(self):
+            if self.pending is None:
+                return
+            off, data = self.pending
+            self.pending = None
+            j = counter['n']
+            counter['n'] += 1
+            n = len(data) if j < k else (min(tear, len(data)) if (j == k and len(data) > 8) else 0)
+            for i in range(n):
+                self.over[off + i] = data[i]
+
+        def seek(self, off, whence=0):
+            self._flush()
+            self.pos = self.vlen + off if whence == 2 else off
+            return self.pos
+
+        def read(self, n=-1):
+            self._flush()
+            return ModelFile.read(self, n)
+
+        def write(self, data):
+            if self.pending is not None and self.pending[0] + len(self.pending[1]) == self.pos:
+                self.pending = (self.pending[0], self.pending[1] + bytes(data))
+            else:
+                self._flush()
+                self.pending = (self.pos, bytes(data))
+            self.pos += len(data)
+            self.vlen = max(self.vlen, self.pos)
+            return len(data)
+
+        def close(self):
+            self._flush()
+    fi, fd = CrashFile(IDX1_END + 16, idx_at), CrashFile(Ld, dat_at)
+    fd.length = Ld + 4 + len(payload) + 64
+    files = {'/b/R0000C0000.bundlx': fi, '/b/R0000C0000.bundle': fd}
+
+    class FH(object):
+        def __init__(self, f):
+            self.f = f
+
+        def __getattr__(self, kk):
+            return getattr(self.f, kk)
+
+        def __enter__(self):
+            self.f.seek(0)
+            return self
+
+        def __exit__(self, *a_):
+            self.f.close()
+    C.__dict__['__builtins__'] = dict(C.__dict__['__builtins__'])
+    C.__dict__['__builtins__']['open'] = lambda name, mode='r': FH(files[name])
+
+    @contextlib.contextmanager
+    def lock(*a_, **kw):
+        yield
+    C.FileLock = lock
+    real_os = C.os
+
+    class OS(object):
+        SEEK_SET, SEEK_END = 0, 2
+
+        class path(object):
+            exists = staticmethod(lambda p: True)
+            join = staticmethod(real_os.path.join)
+    C.os = OS
+
+    @contextlib.contextmanager
+    def tile_buffer(tile):
+        class Buf(object):
+            def read(self_):
+                return tile.source
+        yield Buf()
+    C.tile_buffer = tile_buffer
+    b = C.BundleV1('/b/R0000C0000', (0, 0))
+
+    def entry(fi_, fd_, xx, yy):
+        idx = C.BundleIndexV1.__new__(C.BundleIndexV1)
+        idx._fh = fi_
+        rx, ry = b._rel_tile_coord((xx, yy, 0))
+        off = idx.tile_offset(rx, ry)
+        if off == 0:
+            return 0, 0
+        size = 0
+        for i in range(4):
+            size |= (fd_.get(off + i) or 0) << (8 * i)
+        return off, size
+    pre_i, pre_d = ModelFile(IDX1_END + 16, idx_at), ModelFile(Ld, dat_at)
+    off_o, size_o = entry(pre_i, pre_d, x, y)
+    off_b, size_b = entry(pre_i, pre_d, x2, y2)
+
+    def valid(off, size):
+        return off == 0 or (off >= 60 and off + 4 <= Ld and size <= Ld - off - 4)
+    same = (x % 128 == x2 % 128) and (y % 128 == y2 % 128)
+    if not (valid(off_o, size_o) and valid(off_b, size_b)) or (not same and off_o and off_b and not (off_o + 4 + size_o <= off_b or off_b + 4 + size_b <= off_o)):
+        return False, 'pre-state does not satisfy the invariant (model artefact)'
+    try:
+        b.store_tiles([_STile((x, y, 0), bytes(payload))])
+    except Exception as e:
+        return True, 'real code raised %s: %s' % (type(e).__name__, e)
+    ri = ModelFile(IDX1_END + 16, lambda p: fi.over.get(p, idx_at(p)))
+    rd = ModelFile(fd.length, lambda p: fd.over.get(p, dat_at(p) if p < Ld else 0))
+    off_w, size_w = entry(ri, rd, x, y)
+    off_a, size_a = entry(ri, rd, x2, y2)
+    new_ok = off_w == Ld and size_w == len(payload) and all(rd.get(Ld + 4 + i) == payload[i] for i in range(len(payload)))
+    old_ok = (off_w, size_w) == (off_o, size_o)
+    if not (new_ok or old_ok):
+        return True, 'after a crash behind flush %d the written slot decodes to %s (old %s, new %s)' % (k, (off_w, size_w), (off_o, size_o), (Ld, len(payload)))
+    if not same and (off_a, size_a) != (off_b, size_b):
+        return True, 'another slot changed across the crash'
+    return False, 'real code is crash safe for the model values'
 
 
 # --------------------------------------------------------------------------- (b) write_atomic
@@ -407,6 +595,9 @@ class StoreSequence(FileCacheOps):
 def replay(body):
     if body.get('args', {}).get('harness'):
         return e1_replay(body)
+    if (body.get('cex') or {}).get('v1'):
+        r = run_crash_v1(dict(args=body['args'], kind='holds'))
+        return r.get('status') == 'sat' and bool(r.get('replayed')), r.get('detail', '')
     if 'L' in (body.get('cex') or {}):
         c = body['cex']
         ok, detail, f = native_crash_v2(c, map_byte_fn(c.get('bytes', {})), _patches(body))
@@ -446,6 +637,15 @@ def obligations(tier, seed):
         for k in range(0, 6):     # flush boundaries of one store (the real code issues 4-5 flushes); k=5: completed
             for part in ('written-slot-old-or-new', 'other-slot-unaffected'):
                 specs.append(_spec('bundle-v2/crash-behind-flush-%d/payload%d/%s' % (k, n, part), 'run_crash_v2', n=n, part=part, k=k, cost=80))
+    for k in range(0, 4):     # the real v1 store issues three flushes: record (data file), index entry (index file), header (data file)
+        for part in ('written-slot-old-or-new', 'other-slot-unaffected'):
+            if tier != 'thorough' and part == 'other-slot-unaffected' and k not in (1, 3):
+                continue
+            specs.append(_spec('bundle-v1/crash-behind-flush-%d/payload5/%s' % (k, part), 'run_crash_v1', n=5, part=part, k=k, cost=300))
+    specs.append(_spec('twin/bundle-v1-crash', 'run_crash_v1', kind='witness', n=5, k=1, cost=5))
+    specs.append(_spec('canary/v1 index entry published before the record is appended', 'run_crash_v1', kind='canary', n=5, k=1, part='written-slot-old-or-new', cost=60,
+                       patches={'mapproxy.cache.compact': [["                        offset, size = bundle.append_tile(data, prev_offset=offset)\n                        idx.update_tile_offset(x, y, offset=offset, size=size)",
+                                                            "                        bundle._fh.seek(0, os.SEEK_END)\n                        idx.update_tile_offset(x, y, offset=bundle._fh.tell(), size=len(data))\n                        idx._fh.seek(0)\n                        offset, size = bundle.append_tile(data, prev_offset=offset)"]]}))
     specs.append(_spec('write-atomic/crash-prefix', 'run_write_atomic'))
     for fail in ('open', 'write', 'rename'):
         specs.append(_spec('write-atomic/io-error-in-%s' % fail, 'run_write_atomic', fail_at=fail))
@@ -482,7 +682,7 @@ META = dict(
                'BundleV2._tile_offset_size', 'write_atomic', 'FileCache._store', 'LegendCache.store', 'ProgressStore.write'],
     bounds='one tile store per crash, payload 5 bytes (thorough also 9); crash index enumerated over all flush boundaries, tear length symbolic, one crash; fault model: process death between or inside '
            'flushes of buffered I/O, writes <= 8 bytes atomic, rename/unlink atomic, no power loss / reordering',
-    outside='bundle v1 (two files), SQLite/GeoPackage journaling, the Windows branch of write_atomic, single-colour link replacement window '
+    outside='SQLite/GeoPackage journaling, the Windows branch of write_atomic, single-colour link replacement window '
             '(allowed by the property), power-loss semantics',
     assumptions=['buffered writes reach the disk at the next seek/read/close in program order', 'contiguous buffered writes form one flush'],
     trusted_base=['z3 5.1', 'engine/symfile.py'],
